@@ -390,7 +390,7 @@ fn metamorphic(m: &Module, rng: &mut Rng, rep: &mut Report) {
                                 for (name, text) in fa {
                                     let base = name.rsplit('/').next().unwrap();
                                     let stem = base.split('.').next().unwrap();
-                                    if stem == ty.name || text.contains(&format!("{}_m", ty.name)) || text.contains(&format!("{}_destroy", ty.name)) {
+                                    if stem == ty.name || contains_symbol(text, &ty.name) || text.contains(&format!("{}_m", ty.name)) || text.contains(&format!("{}_destroy", ty.name)) {
                                         rep.oracle_fail(&case, "disabled type still present in backend output", json!({"backend": t, "type": ty.name, "file": name}));
                                     }
                                 }
@@ -418,12 +418,61 @@ fn metamorphic(m: &Module, rng: &mut Rng, rep: &mut Report) {
     }
 }
 
+/// Placement oracle: an attribute on an impl block must mean exactly the same as that attribute written on
+/// every method of *that* impl block (and on no other); compared on all seven real backends.
+fn impl_placement(m: &Module, rep: &mut Report) {
+    let mut moved = m.clone();
+    let mut any = false;
+    for t in &mut moved.types {
+        for i in &mut t.impls {
+            if i.attrs.is_empty() {
+                continue;
+            }
+            any = true;
+            let inherited = std::mem::take(&mut i.attrs);
+            for me in &mut i.methods {
+                let mut v = inherited.clone();
+                v.extend(me.attrs.drain(..));
+                me.attrs = v;
+            }
+        }
+    }
+    if !any {
+        return;
+    }
+    let a_src = m.rust();
+    let b_src = moved.rust();
+    let case = format!("{} vs impl attributes moved onto their methods", m.sexp());
+    for t in NAMES {
+        rep.oracle_runs += 1;
+        let a = backend_files(&a_src, t);
+        let b = backend_files(&b_src, t);
+        match (a, b) {
+            (Ok(fa), Ok(fb)) => {
+                if fa != fb {
+                    let diff: Vec<String> = fa.keys().chain(fb.keys()).filter(|k| fa.get(*k) != fb.get(*k)).cloned().collect();
+                    rep.oracle_fail(&case, "an impl-block attribute behaves differently from the same attribute on each of its methods", json!({"backend": t, "differing_files": diff, "source": a_src}));
+                }
+            }
+            (Err(x), Err(y)) => {
+                let _ = (x, y);
+            }
+            (x, y) => rep.oracle_fail(&case, "an impl-block attribute changes acceptance compared with the same attribute on each of its methods", json!({"backend": t, "impl_level": x.err(), "method_level": y.err()})),
+        }
+    }
+    rep.count("impl_placement_checked");
+}
+
 pub fn contains_symbol(text: &str, sym: &str) -> bool {
     let mut start = 0;
     while let Some(p) = text[start..].find(sym) {
-        let end = start + p + sym.len();
+        let begin = start + p;
+        let end = begin + sym.len();
         let next = text[end..].chars().next();
-        if !next.map(|c| c.is_alphanumeric() || c == '_').unwrap_or(false) {
+        let prev = text[..begin].chars().next_back();
+        if !next.map(|c| c.is_alphanumeric() || c == '_').unwrap_or(false)
+            && !prev.map(|c| c.is_alphanumeric() || c == '_').unwrap_or(false)
+        {
             return true;
         }
         start = end;
@@ -518,6 +567,7 @@ pub fn main(args: &[String]) {
     let mut orng = rng.fork();
     for m in mods.iter().take(k) {
         metamorphic(m, &mut orng, &mut rep);
+        impl_placement(m, &mut rep);
     }
     rep.print();
 }
